@@ -310,7 +310,7 @@ def run_job(job):
                 break
         rec = {'id': item['id'], 'p': header(sc), 'ev': evs, 'sc': sc, 'seed': seed,
                'strategy': 'random', 'status': res.status}
-        if res.status != 'ok' or res.exc is not None:
+        if res.status != 'ok' or res.exc is not None or res.thread_errors:
             rec.update(detail=res.detail, waitmap=res.waitmap, exc=repr(res.exc) if res.exc is not None else None,
                        leftover=res.leftover)
             hangs.append(rec)
